@@ -226,6 +226,29 @@ static void mode_entry(void) {
   g_strbuf = (char*)vf_real_mmap(NULL, 4 * MI_MiB, PROT_READ | PROT_WRITE, MAP_PRIVATE | MAP_ANONYMOUS, -1, 0);
   long idx = 0;
   void* zero_ptrs[64]; int nzero = 0;
+  /* the string duplicators over (length, limit): a limit is not a size request */
+  { static const size_t lens[] = { 0, 1, 5, 40, 1000, 70000 };
+    for (int li = 0; li < 6; li++) for (int v = 0; v < 2; v++) {
+      size_t L = lens[li];
+      const size_t limits[] = { 0, 1, L > 0 ? L - 1 : 0, L, L + 1, L + 8, 65536, (size_t)1 << 40, SIZE_MAX / 2, (size_t)PTRDIFF_MAX, (size_t)PTRDIFF_MAX + 1, SIZE_MAX - 8, SIZE_MAX - 1, SIZE_MAX };
+      for (int k = 0; k < 14; k++) {
+        long my = idx++;
+        if ((my % g_workers) != g_worker) continue;
+        g_case = my;
+        size_t lim = limits[k], want = L < lim ? L : lim;
+        CASE_BEGIN("entry #%ld %s(string of %zu characters, limit %zu)", my, v ? "mi_heap_strndup" : "mi_strndup", L, lim);
+        VF_INC(nodes); VF_INC(transitions); VF_INC(checks);
+        for (size_t i = 0; i < L; i++) g_strbuf[i] = (char)('a' + (i * 7) % 26); g_strbuf[L] = 0;
+        char* d = (v ? mi_heap_strndup(mi_heap_get_default(), g_strbuf, lim) : mi_strndup(g_strbuf, lim));
+        if (d == NULL) { VIOL("null-result", "returned NULL"); return; }
+        if (strlen(d) != want || memcmp(d, g_strbuf, want) != 0) { VIOL("strdup-contents", "the copy has %zu characters (expected %zu) or differs", strlen(d), want); return; }
+        if (vf_model_alloc(d, want + 1, 0, 0, 0, 0, "mi_strndup") < 0) return;       /* usable >= what was written, no overlap, accessible */
+        if (vf_model_check_all("after strndup") != 0) return;
+        if (ring_release_oldest() != 0) return;
+        if (lim > L + 8) VF_INC(nontrivial);
+      }
+    }
+  }
   for (int si = 0; si < g_nsizes; si++) for (int e = 0; e < EN_N; e++) for (int rel = 0; rel < (g_full ? 5 : 2); rel++) {
     size_t n = g_sizes[si];
     long my = idx++;
@@ -245,7 +268,7 @@ static void mode_entry(void) {
     }
     if (n > 8192) VF_INC(nontrivial);
     if (vf_model_check_all("after case") != 0) return;
-    if (n == 0 && nzero < 8) { zero_ptrs[nzero++] = p; vf_model_remove_ordered(vf_nlive - 1); /* keep it live outside the ring */ vf_live[vf_nlive] = (vf_blk_t){ (uint8_t*)p, 0, 0, 0, 0, 0, 0, 0, 0 }; vf_nlive++; }
+    if (n == 0 && nzero < 8) { zero_ptrs[nzero++] = p; vf_model_remove_ordered(vf_nlive - 1); /* keep it live outside the ring */ vf_live[vf_nlive] = (vf_blk_t){ (uint8_t*)p, 0, mi_usable_size(p), 0, 0, 0, 0, 0, 0 }; vf_nlive++; }
     if ((my % 5) != 2 || vf_live[vf_nlive - 1].usable > 4 * MI_MiB) { if (release_block(vf_nlive - 1, rel) != 0) return; if (n == 0 && nzero > 0 && zero_ptrs[nzero - 1] == p) nzero--; }
     while (vf_nlive >= RING + nzero) { if (vf_live[0].req == 0 && nzero > 0) { /* rotate */ vf_blk_t t = vf_live[0]; vf_model_remove_ordered(0); for (int k = 0; k < nzero; k++) if (zero_ptrs[k] == t.p) { zero_ptrs[k] = zero_ptrs[--nzero]; break; } mi_free(t.p); } else if (ring_release_oldest() != 0) return; }
     if (vf_err_count > 0) { VIOL("error-callback", "mimalloc reported error %d", vf_err_last); return; }
@@ -432,10 +455,11 @@ static void* zg_call(int v, void* p, size_t n) {
   return NULL;
 }
 static void mode_zchain(void) {
-  /* ladder: values that stay inside a size class, cross a class, cross page kinds and the huge boundary */
-  static const size_t ladder_q[] = { 1, 8, 12, 16, 40, 56, 60, 64, 100, 1000, 1100, 8000, 8192, 8200, 65536, 65540, 200000, 17 * MI_MiB };
-  static const size_t ladder_f[] = { 0, 1, 7, 8, 9, 12, 16, 24, 40, 48, 56, 60, 64, 65, 100, 120, 1000, 1024, 1100, 8000, 8192, 8200, 10000, 65536, 65540, 100000, 200000, 1 * MI_MiB + 5, 17 * MI_MiB, 18 * MI_MiB };
-  const size_t* L = g_full ? ladder_f : ladder_q; int nl = g_full ? 30 : 18;
+  /* ladder: values that stay inside a size class, cross a class, cross page kinds and the huge boundary; the last huge values grow
+     in place inside the slack of a huge block (whose usable size is rounded up to whole slices) */
+  static const size_t ladder_q[] = { 1, 8, 12, 16, 40, 56, 60, 64, 100, 1000, 1100, 8000, 8192, 8200, 65536, 65540, 200000, 17 * MI_MiB, 17 * MI_MiB + 100, 17 * MI_MiB + 4000 };
+  static const size_t ladder_f[] = { 0, 1, 7, 8, 9, 12, 16, 24, 40, 48, 56, 60, 64, 65, 100, 120, 1000, 1024, 1100, 8000, 8192, 8200, 10000, 65536, 65540, 100000, 200000, 1 * MI_MiB + 5, 17 * MI_MiB, 17 * MI_MiB + 100, 17 * MI_MiB + 4000, 18 * MI_MiB };
+  const size_t* L = g_full ? ladder_f : ladder_q; int nl = g_full ? 32 : 20;
   int maxlen = g_full ? 4 : 3;
   long idx = 0;
   /* all strictly increasing chains of length 2..maxlen (first element = initial zalloc size) */
@@ -785,6 +809,84 @@ static void mode_badargs(void) {
 }
 
 /* ---------------- driver ------------------------------------------------------------------------ */
+
+/* ================================================================================================
+ * mode hardened (C17): the three detections over the size grid, every case in its own process (debug builds may run
+ * into internal assertions after a detected error, which the property leaves outside the claim: the case ends at the report)
+ *   kind 0: one foreign byte just past the requested size, block freed by its own thread      -> EFAULT
+ *   kind 1: the same, block freed by another thread (owner alive)                              -> EFAULT
+ *   kind 2: second free of a block whose page holds another live block                         -> exactly one EAGAIN, ignored
+ * ============================================================================================== */
+#if (MI_PADDING || MI_SECURE >= 4 || MI_DEBUG)
+#include <pthread.h>
+static void* hd_free_thread(void* p) { mi_free(p); return NULL; }
+#if MI_DEBUG
+static int hd_expect_efault;
+static void hd_error_hook(int err) { if (hd_expect_efault && err == EFAULT) { VF_INC(nontrivial); _exit(0); } }   /* the case ends at the report */
+#endif
+static void hd_case(int kind, size_t n) {
+  vf_err_count = 0;
+  void* nb = mi_malloc(n);                       /* neighbour that stays live: keeps the page in use */
+  uint8_t* p = (uint8_t*)mi_malloc(n);
+  if (p == NULL || nb == NULL) { VIOL("null-result", "mi_malloc(%zu) returned NULL", n); return; }
+  if (vf_model_alloc(nb, n, 0, 0, 0, 0, "mi_malloc") < 0) return;
+  if (vf_model_alloc(p, n, 0, 0, 0, 0, "mi_malloc") < 0) return;
+  vf_model_remove_ordered(vf_nlive - 1);
+  VF_INC(checks);
+  if (kind == 2) {
+    if (_mi_ptr_page(nb) != _mi_ptr_page(p)) return;      /* a block with a page of its own: the second free would come after the whole area was released (outside the claim) */
+    mi_free(p);
+    if (vf_err_count != 0) { VIOL("error-callback", "first free of a valid block reported error %d", vf_err_last); return; }
+    mi_free(p);
+    if (vf_err_count != 1 || vf_err_last != EAGAIN) { VIOL("double-free-unreported", "second free of a %zu-byte block (its page holds another live block) raised %d reports (last code %d), expected exactly one EAGAIN", n, vf_err_count, vf_err_last); return; }
+#if !MI_DEBUG
+    vf_err_count = 0;
+    /* ignored: the block is handed out once, not twice */
+    void* a = mi_malloc(n); void* b = mi_malloc(n);
+    if (a == NULL || b == NULL || a == b) { VIOL("double-handout", "after an ignored double free two allocations returned %p and %p", a, b); return; }
+    if (vf_model_alloc(a, n, 0, 0, 0, 0, "mi_malloc") < 0) return;
+    if (vf_model_alloc(b, n, 0, 0, 0, 0, "mi_malloc") < 0) return;
+    if (vf_model_check_all("after double free") != 0) return;
+#endif
+    VF_INC(nontrivial);
+    return;
+  }
+  size_t usable = mi_usable_size(p);
+  size_t at = n;
+  if (usable < n) { VIOL("usable-too-small", "usable %zu < %zu", usable, n); return; }
+  p[at] = 0x41;
+#if MI_DEBUG
+  hd_expect_efault = 1; vf_error_hook = &hd_error_hook;
+#endif
+  if (kind == 1) { pthread_t th; if (pthread_create(&th, NULL, hd_free_thread, p) != 0) { vf_sh->infra_error = 1; return; } pthread_join(th, NULL); }
+  else mi_free(p);
+  if (vf_err_count < 1 || vf_err_last != EFAULT) { VIOL("overflow-unreported", "a foreign byte at offset %zu of a block of requested size %zu was not reported when the block was freed by %s (%d reports, last code %d), expected EFAULT", at, n, kind == 1 ? "another thread" : "its own thread", vf_err_count, vf_err_last); return; }
+  VF_INC(nontrivial);
+}
+static void mode_hardened(void) {
+  long idx = 0;
+  for (int si = 0; si < g_nsizes + 130; si++) {
+    size_t n = (si < 130 ? (size_t)si + 1 : g_sizes[si - 130]);     /* every size 1..130, then the boundary grid */
+    if (n == 0 || n > 2 * MI_MiB) continue;
+    for (int kind = 0; kind < 3; kind++) {
+      long my = idx++;
+      if ((my % g_workers) != g_worker) continue;
+      g_case = my;
+      CASE_BEGIN("hardened #%ld kind=%d size=%zu", my, kind, n);
+      VF_INC(nodes); VF_INC(transitions);
+      pid_t pid = fork();
+      if (pid == 0) { vf_nlive = 0; hd_case(kind, n); _exit(0); }
+      int st = 0; waitpid(pid, &st, 0);
+      if (!(WIFEXITED(st) && WEXITSTATUS(st) == 0) && vf_sh->nviol == 0) { VIOL("crash", "case process ended with status 0x%x", st); return; }
+      if (vf_sh->nviol > 0) return;
+      if (my == g_stop_at) return;
+    }
+  }
+}
+#else
+static void mode_hardened(void) { fprintf(stderr, "mode hardened needs a secure or debug build\n"); vf_sh->infra_error = 1; }
+#endif
+
 static void run_mode(void) {
   if      (strcmp(g_mode, "align") == 0) mode_align();
   else if (strcmp(g_mode, "entry") == 0) mode_entry();
@@ -792,6 +894,7 @@ static void run_mode(void) {
   else if (strcmp(g_mode, "zchain") == 0) mode_zchain();
   else if (strcmp(g_mode, "zero") == 0) mode_zero();
   else if (strcmp(g_mode, "badargs") == 0) mode_badargs();
+  else if (strcmp(g_mode, "hardened") == 0) mode_hardened();
   else { fprintf(stderr, "unknown mode %s\n", g_mode); vf_sh->infra_error = 1; }
 }
 
